@@ -81,14 +81,25 @@ def containment(report, db, S, M):
             id(n[3]) in nodes and any(e.calls(units['_handle_exception'])
                                       for e in p.calls())
             for n in caught_notes(p))]
+        swallowed = [p for p in paths if any(
+            id(n[3]) in nodes for n in caught_notes(p)) and not any(
+                e.calls(units['_handle_exception']) for e in p.calls())]
         if escaped or not routed:
             report.violation(R, 'contain:%s' % name, run_.path,
                              called[0].node, run_.qualname, 'an exception '
                              'from %s() is not caught by the thread wrapper: '
                              'it escapes without being routed to the '
                              'handlers' % name)
+        elif swallowed:
+            report.violation(R, 'contain:swallowed:%s' % name, run_.path,
+                             called[0].node, run_.qualname, 'an exception '
+                             'from %s() is caught by the thread wrapper but '
+                             'dropped when [%s]: it reaches no handler and '
+                             'is not recorded' % (
+                                 name, swallowed[0].cond_text()))
         else:
-            report.ok(R, '%s() is inside a handler that dispatches' % name)
+            report.ok(R, '%s() is inside a handler that dispatches on every '
+                      'path' % name)
     # the exit callback runs only after _run returned normally
     good = True
     for p in paths:
